@@ -8,23 +8,28 @@ redirected to a scratch directory. Results go to /verif/seeded/MATRIX.json and i
 import json, os, subprocess, sys, time, shutil
 V = "/verif"
 seeds = sorted(d for d in os.listdir(f"{V}/seeded") if os.path.exists(f"{V}/seeded/{d}/patch.diff"))
-if len(sys.argv) > 1:
-    seeds = [s for s in seeds if s in sys.argv[1:]]
+sel = [a for a in sys.argv[1:] if not a.startswith("--")]
+if sel:
+    seeds = [s for s in seeds if s in sel]
 checks = [f"C{i:02d}" for i in range(1, 21)]
 matrix = {}
 if os.path.exists(f"{V}/seeded/MATRIX.json"):
     matrix = json.load(open(f"{V}/seeded/MATRIX.json"))
-for sid in seeds:
-    wt = f"/tmp/wt/m_{sid}"
-    subprocess.run(["git", "-C", "/repo", "worktree", "remove", "--force", wt], capture_output=True)
+# ONE long-lived worktree: patches are applied and reversed in place so that only the touched files get a
+# new mtime (numba re-compiles only those); its numba cache lives in /var/tmp/matrix_numba
+wt = "/tmp/wt/matrix"
+if not os.path.isdir(wt):
     subprocess.run(["git", "-C", "/repo", "worktree", "add", "-q", "--detach", wt, "HEAD"], check=True)
-    scratch = f"/var/tmp/matrix_{sid}"
+for sid in seeds:
+    if sid in matrix and "--redo" not in sys.argv:
+        continue
+    scratch = "/var/tmp/matrix_scratch"
     shutil.rmtree(scratch, ignore_errors=True); os.makedirs(scratch)
     try:
         r = subprocess.run(["git", "-C", wt, "apply", f"{V}/seeded/{sid}/patch.diff"], capture_output=True, text=True)
         assert r.returncode == 0, r.stderr
         env = dict(os.environ, SOPHT_VERIF_REPO=wt, VERIF_EVIDENCE_DIR=f"{scratch}/evidence", VERIF_REPLAY_DIR=f"{scratch}/replays",
-                   NUMBA_CACHE_DIR=f"{scratch}/numba", XDG_CACHE_HOME="/verif/.cache/xdg")
+                   NUMBA_CACHE_DIR="/var/tmp/matrix_numba", XDG_CACHE_HOME="/verif/.cache/xdg")
         row = {}
         for c in checks:
             t = time.time()
@@ -40,6 +45,10 @@ for sid in seeds:
         json.dump(m, open(f"{V}/seeded/{sid}/meta.json", "w"), indent=1)
         json.dump(matrix, open(f"{V}/seeded/MATRIX.json", "w"), indent=1)
     finally:
-        subprocess.run(["git", "-C", "/repo", "worktree", "remove", "--force", wt], capture_output=True)
+        subprocess.run(["git", "-C", wt, "apply", "-R", f"{V}/seeded/{sid}/patch.diff"], capture_output=True)
+        subprocess.run(["git", "-C", wt, "checkout", "--", "."], capture_output=True)
         shutil.rmtree(scratch, ignore_errors=True)
+if "--keep" not in sys.argv:
+    subprocess.run(["git", "-C", "/repo", "worktree", "remove", "--force", wt], capture_output=True)
+    shutil.rmtree("/var/tmp/matrix_numba", ignore_errors=True)
 print("done")
